@@ -26,7 +26,21 @@ func init() { commands["levels"] = cmdLevels }
 var (
 	lvAudit = log.RegisterLevel(250, "AUDIT")
 	lvTop   = log.RegisterLevel(998, "TOP")
+	// user-registered aliases: a second name for an existing code
+	_ = log.RegisterLevel(400, "WARNING")
+	_ = log.RegisterLevel(250, "AUDIT2")
+	_ = log.RegisterLevel(700, "CRITICAL")
 )
+
+// lvNames lists the names a level code can be written with in a range string.
+var lvNames = map[int32][]string{400: {"WARN", "WARNING"}, 250: {"AUDIT", "AUDIT2"}, 700: {"FATAL", "CRITICAL"}}
+
+func lvName(rng *rand.Rand, l log.Level) string {
+	if ns, ok := lvNames[l.Code()]; ok {
+		return ns[rng.Intn(len(ns))]
+	}
+	return l.Name()
+}
 
 // concrete levels in increasing code order; the last one is MAX
 var concLevels = []log.Level{log.NoneLevel, log.TraceLevel, log.DebugLevel, lvAudit, log.InfoLevel,
@@ -126,14 +140,14 @@ func lvEntries() []lvEntry {
 }
 
 func rangeStr(rng *rand.Rand, m []log.Level, r lvRange, top int, allowEmpty bool) string {
-	lo := m[r.Min].Name()
+	lo := lvName(rng, m[r.Min])
 	if r.Max == -1 || (r.Max == top && rng.Intn(2) == 0 && allowEmpty) {
 		if allowEmpty && m[r.Min].Code() == 0 && rng.Intn(2) == 0 {
 			return ""
 		}
 		return randCase(rng, lo)
 	}
-	return randCase(rng, lo) + "~" + randCase(rng, m[r.Max].Name())
+	return randCase(rng, lo) + "~" + randCase(rng, lvName(rng, m[r.Max]))
 }
 
 func inRange(code int32, lo, hi log.Level) bool { return code >= lo.Code() && code < hi.Code() }
